@@ -1,0 +1,6 @@
+//go:build !verif
+
+// Package verifhook is a no-op unless built with tag "verif".
+package verifhook
+
+func Gate(name string) {}
